@@ -129,3 +129,33 @@ def show_poly(p, show=None):
         parts.append(("+" if c > 0 else "-") + ("" if abs(c) == 1 else str(abs(c)) + "*") + ms)
     s = " ".join(parts)
     return s[1:] if s.startswith("+") else s
+
+
+def pairs_of(t):
+    """The (left, right) operand terms of a literal pairing input `&[(a, b), (c, d), ..]` (array or slice of tuples)."""
+    from .terms import subterms
+
+    t = B.peel(t)
+    arrs = [s for s in set([t]) | set(subterms(t)) if s.op == "agg" and s.a[0][0] == "array" and s.a[1] and all(B.peel(e).op == "agg" and B.peel(e).a[0][0] == "tuple" and len(B.peel(e).a[1]) == 2 for e in s.a[1])]
+    if len(arrs) != 1:
+        return None
+    return [tuple(B.peel(e).a[1]) for e in arrs[0].a[1]]
+
+
+def bilinear(pairs, atom=None):
+    """Normal form of a pairing product  prod e(L_i, R_i)  written additively: sum_i L_i (x) R_i, with both sides expanded
+    as polynomials (bilinearity: e(aP + Q, R) = e(P, R)^a e(Q, R), e(-P, R) = e(P, -R) = e(P, R)^-1)."""
+    acc = {}
+    for l, r in pairs:
+        acc = _padd(acc, _pmul_keys(poly(l, atom), poly(r, atom)))
+    return acc
+
+
+def up_to_sign(p):
+    """Canonical representative of {p, -p} (for products only tested against the identity)."""
+    if not p:
+        return p
+    first = sorted(p.items(), key=lambda kv: [str(_skey(k)) for k in kv[0]])[0]
+    if first[1] < 0:
+        return {m: -c for m, c in p.items()}
+    return p
